@@ -108,7 +108,7 @@ class LifeSystem:
         self.polls += 1
         if self.poll_fail:
             raise fakes.FakeRpcError('unavailable')
-        cur = getattr(self, 'late_hash', 'h1')
+        cur = getattr(self, 'late_hash', 'h1')      # (the service has a new configuration for every life of the agent)
         if request.current_hash == cur:
             return PollResponse(ts_nanos=1, current_hash=cur, response_type=ResponseType.NO_CHANGE)
         tp = TracePointConfig(ID='life', path=self.path.rsplit('/', 1)[-1], line_number=self.marks['beat'],
@@ -141,6 +141,9 @@ class LifeSystem:
         return 'Unknown:%r' % (fn,)
 
     def start(self):
+        if not self.deep.started:
+            self.lives = getattr(self, 'lives', 0) + 1
+            self.late_hash = 'h%d' % self.lives
         self.deep.start()
 
     def app_sets_hooks(self):
@@ -188,7 +191,7 @@ class LifeSystem:
                 # the poll timer fires while shutdown drains: the service has a NEW configuration by now
                 def late():
                     time.sleep(0.05)
-                    self.late_hash = 'h2'
+                    self.late_hash = 'late%d' % getattr(self, 'lives', 1)
                     try:
                         self.deep.poll.poll()
                     except BaseException:
